@@ -21,7 +21,7 @@ for m in metas:
     own = m.get('checks', {}).get(m['property'], {})
     key = (own.get('keys') or [''])[0].split(' count=')[0].replace('key=', '')
     if m.get('superseded'):
-        verdict = 'superseded (trigger removed by fix F8)'
+        verdict = 'superseded (trigger removed by fix %s)' % ('F10' if 'F10' in m['superseded'] else 'F8')
     elif m.get('out_of_quantifier'):
         verdict = 'not claimed: outside the quantifier'
     elif m.get('not_claimed'):
